@@ -244,7 +244,22 @@ def _rejection(rep, pattern, mapping, parse, file, fn):
     else:
         rep.violation("R2", "obis.OBIS_PATTERN_BOTH", "adjacency", "groups C and D are not adjacent through a literal '.' in the pattern", file, 1, witness=seq)
     n = bad = 0
-    for s in ["", ".", "1.", ".5", "1-2:3.", "7.*6", "1.x", "abc", "1-2:", "1:2", "1*2", "..", "1-.2", " 1.2", "1 .2", "-:.", "1-2:.4", "a.b", "1..2"]:
+    witnesses = ["", ".", "1.", ".5", "1-2:3.", "7.*6", "1.x", "abc", "1-2:", "1:2", "1*2", "..", "1-.2", " 1.2", "1 .2", "-:.", "1-2:.4", "a.b", "1..2"]
+    # mutation grammar: every dot of a well-formed code separated from its digits by whitespace / sign / underscore / letter on one or both sides (at all dots
+    # and at single dots), digits removed next to dots -- none of these contains digit.digit, whatever a lenient integer conversion would make of the parts
+    for base_ in ("1.0.1.7.0.255", "1-0:1.8.0*255", "96.1.0", "1.8", "1-0:1.8.0"):
+        dots_ = [i for i, ch in enumerate(base_) if ch == "."]
+        for ins in (" ", "+", "-", "_", "x", "\t", "\n", "٣"):
+            for side in ("before", "after", "both"):
+                for which in (dots_, dots_[:1], dots_[-1:]):
+                    t_ = list(base_)
+                    for i in reversed(dots_):
+                        if side in ("after", "both") or i not in which:
+                            t_.insert(i + 1, ins)
+                        if side in ("before", "both") and i in which:
+                            t_.insert(i, ins)
+                    witnesses.append("".join(t_))
+    for s in dict.fromkeys(witnesses):
         if re.search(r"\d\.\d", s):
             continue
         n += 1
@@ -371,6 +386,14 @@ def _roundtrip(rep, M, O, parse, lengths, file):
             v0 = list(base)
             v0[2], v0[3] = c0, d0
             cases.append(v0)
+        # digit patterns a character-level clean-up of the text would damage: trailing / inner / leading-significant zeros, repeated digits
+        for val in (10, 100, 250, 105, 200, 11, 101):
+            cases.append([val if present[i] else None for i in range(6)])
+            for i in range(6):
+                if present[i]:
+                    v1 = list(base)
+                    v1[i] = val
+                    cases.append(v1)
         for vals in cases:
             r = AE.apply(fn, [AObj("Obis", {G: tuple(vals)}, cls_key=(MOD, "Obis"))])
             if r[0] in ("undecided", "branch"):
